@@ -62,6 +62,34 @@ theorem predSample_zero (px : Array Nat) (spr : Nat) (hs : 1 ≤ spr) (k : Nat) 
   simp only [Bool.not_false, Bool.and_self, ↓reduceIte, Int.add_zero]
   rw [refAt_inrange px spr (px.size / spr) (k % spr) (k / spr) (Nat.mod_lt _ (by omega)) hk, idx_of_div_mod]
 
+/-- **Not-coded macroblocks (COD = 1, and the ones a picture that ends early leaves out) are exact copies**: an INTER macroblock
+with zero vectors whose luma slot holds no coefficients reproduces the co-located reference sample. -/
+theorem not_coded_copies (types : Array MbType) (r : DecPic) (mvs : Array Mv4) (m w : Nat) (hw : 1 ≤ w) (orig : Array Nat)
+    (lumaLv : Array Dct) (k : Nat) (h1 : k / w < r.luma.size / w) (h2 : k % w / 16 < m)
+    (hi : k % w / 16 + k / w / 16 * m < min types.size mvs.size)
+    (ht : (types.getD (k % w / 16 + k / w / 16 * m) .inter).isInter = true)
+    (hmv : mvs.getD (k % w / 16 + k / w / 16 * m) zeroMv4 = zeroMv4)
+    (hlv : ∀ d, lumaLv[k % w / 8 + k / w / 8 * (m * 2)]? = some d → d = .zero) :
+    idctVal lumaLv (m * 2) w r.luma.size k (lumaAt types r mvs m w orig k) = r.luma.getD k 0 := by
+  have hl : lumaAt types r mvs m w orig k = r.luma.getD k 0 := by
+    unfold lumaAt
+    rw [if_pos ⟨h1, h2, hi, ht⟩, hmv]
+    have : mvSel zeroMv4 (k % w % 16 / 8) (k / w % 16 / 8) = (0, 0) := by
+      unfold mvSel zeroMv4
+      split <;> split <;> rfl
+    rw [this]
+    exact predSample_zero r.luma w hw k h1
+  rw [hl]
+  unfold idctVal
+  split
+  · unfold blockAt
+    cases hd : lumaLv[k % w / 8 + k / w / 8 * (m * 2)]? with
+    | none => rfl
+    | some d =>
+      rw [hlv d hd]
+      simp [blockResidual]
+  · rfl
+
 theorem gather_no_inter (types : Array MbType) (ref : Option DecPic) (mvs : Array Mv4) (m : Nat) (pic : DecPic)
     (hall : ∀ i, i < types.size → (types.getD i .inter).isInter = false) : gather types ref mvs m pic = .ok pic := by
   unfold gather
